@@ -3175,6 +3175,92 @@ impl WorldlineRuntime {
     }
 }
 
+/// Verification-only seam (feature `echo_verif`, hook `fingerprint` for C09): read access to the
+/// runtime indexes that have no public reader, and a global-tick fixture setter. The fault
+/// evidence fields (`scheduler_faults`, `faulted_heads`, `runtime_fault`,
+/// `next_scheduler_fault_generation`) and the derived `runnable` cache are deliberately absent.
+#[cfg(feature = "echo_verif")]
+impl WorldlineRuntime {
+    pub(crate) fn echo_verif_index_debug(&self) -> Vec<(&'static str, String)> {
+        vec![
+            (
+                "routes",
+                format!("{:?}|{:?}", self.default_writers, self.public_inboxes),
+            ),
+            (
+                "subs",
+                format!(
+                    "{:?}|{:?}|{:?}|{:?}",
+                    self.next_submission_generation,
+                    self.witnessed_submissions,
+                    self.witnessed_submission_envelopes,
+                    self.submission_by_target
+                ),
+            ),
+            (
+                "pendsubs",
+                format!("{:?}", self.pending_witnessed_submission_ids),
+            ),
+            (
+                "ticketed",
+                format!(
+                    "{:?}|{:?}|{:?}",
+                    self.ticketed_runtime_ingress,
+                    self.ticketed_runtime_ingress_by_submission,
+                    self.ticketed_runtime_ingress_by_target
+                ),
+            ),
+            (
+                "corr.tid",
+                format!("{:?}", self.receipt_correlations_by_ticketed_ingress),
+            ),
+            (
+                "corr.sub",
+                format!("{:?}", self.receipt_correlation_by_submission),
+            ),
+            (
+                "corr.ticket",
+                format!("{:?}", self.receipt_correlation_by_ticket),
+            ),
+            (
+                "corr.ref",
+                format!("{:?}", self.receipt_correlation_by_receipt_ref),
+            ),
+            (
+                "corr.basis",
+                format!("{:?}", self.receipt_correlations_by_current_basis),
+            ),
+            ("strands", format!("{:?}", self.strands)),
+        ]
+    }
+
+    pub(crate) fn echo_verif_index_sizes(&self) -> Vec<(&'static str, u64)> {
+        vec![
+            (
+                "corr.tid",
+                self.receipt_correlations_by_ticketed_ingress.len() as u64,
+            ),
+            ("corr.sub", self.receipt_correlation_by_submission.len() as u64),
+            ("corr.ticket", self.receipt_correlation_by_ticket.len() as u64),
+            ("corr.ref", self.receipt_correlation_by_receipt_ref.len() as u64),
+            (
+                "corr.basis",
+                self.receipt_correlations_by_current_basis
+                    .values()
+                    .map(|set| set.len() as u64)
+                    .sum(),
+            ),
+            ("pendsubs", self.pending_witnessed_submission_ids.len() as u64),
+            ("subs", self.witnessed_submissions.len() as u64),
+            ("ticketed", self.ticketed_runtime_ingress.len() as u64),
+        ]
+    }
+
+    pub(crate) fn echo_verif_set_global_tick(&mut self, raw: u64) {
+        self.global_tick = GlobalTick::from_raw(raw);
+    }
+}
+
 fn receipt_correlation_current_basis(
     correlation: &ReceiptCorrelationRecord,
 ) -> (WorldlineId, WorldlineTick, Hash) {
@@ -4467,6 +4553,11 @@ impl SchedulerCoordinator {
                     },
                     &mut receipt_correlation_rollback,
                 )?);
+
+                #[cfg(feature = "echo_verif")]
+                if let Some(injected) = crate::echo_verif::c09::fail_inject(key) {
+                    return Err(injected);
+                }
 
                 Ok(StepRecord {
                     head_key: *key,
